@@ -337,6 +337,30 @@ func run11(c *fw.Ctx) {
 			rawProgram(c, fmt.Sprintf("jump-adjacent shape=%q place=%d", sh, place), src, ins4, false)
 		}
 	}
+	// functions whose bodies are byte-identical (same instructions, same constant indexes) at different source lines:
+	// each keeps its own positions
+	c.Family("twin-functions", "2-3 functions with identical bodies containing a jump or a try, defined at different lines; the error is raised in the first, the second or the third")
+	twinBodies := []string{
+		"  if v == 99 {\n    return 0\n  }\n  return 1 / (v - v)\n",
+		"  try {\n    return [1][v + 5]\n  } finally {\n    L(7)\n  }\n",
+		"  for i := 0; i < 2; i++ {\n    L(i)\n  }\n  return v()\n",
+		"  return v == 99 ? 0 : 1 % (v - v)\n",
+	}
+	for bi, body := range twinBodies {
+		for n := 2; n <= 3; n++ {
+			for which := 1; which <= n; which++ {
+				if !c.Next() {
+					continue
+				}
+				src := "param (x); global (L)\n"
+				for i := 1; i <= n; i++ {
+					src += fmt.Sprintf("f%d := func(v) {\n%s}\n%s", i, body, strings.Repeat("\n", i))
+				}
+				src += fmt.Sprintf("return f%d(x)\n", which)
+				rawProgram(c, fmt.Sprintf("twin body=%d n=%d failing=%d", bi, n, which), src, ins4, false)
+			}
+		}
+	}
 	c.Family("jump-grammar", "if/else chains, loops, logical operators, ?:, try - nesting <= 1 (thorough 2), sequences <= 2, x inputs {0,1,2,\"x\"}")
 	ins := ins4
 	JumpPrograms(c.Thorough(), func(src string) {
